@@ -10,7 +10,7 @@ import itertools
 import typing as T
 
 from .cfg import CFG, Node, ReachingDefs, node_defs
-from .load import AnalysisError, FuncInfo, norm, strip_await
+from .load import AnalysisError, FuncInfo, clone, norm, strip_await
 
 MAX_ALTS = 96
 
@@ -27,17 +27,23 @@ class Prov:
 
     # ---- intra-procedural expansion -------------------------------------------------------------
     def expand(self, expr: ast.AST, func: FuncInfo, at: ast.AST | Node | None = None, depth: int = 8,
-               _busy: frozenset[int] = frozenset()) -> list[ast.expr]:
-        """All alternative expansions of `expr` evaluated at statement `at` of `func`."""
+               _busy: frozenset[int] = frozenset(), pure: bool = False) -> list[ast.expr]:
+        """All alternative expansions of `expr` evaluated at statement `at` of `func`.
+        pure=True substitutes only locals defined by call-free expressions (temporaries such as
+        `is_connect = request.method == b"CONNECT"`), keeping names bound to results of calls / unpacking."""
+        self._pure = pure
         cfg: CFG = self.ctx.cfg(func)
         if isinstance(at, Node):
             node = at
         else:
             nodes = cfg.nodes_for(at if at is not None else expr)
             if not nodes:
-                return [copy.deepcopy(expr)]  # type: ignore[list-item]
+                return [clone(expr)]  # type: ignore[list-item]
             node = nodes[0]
-        alts = self._exp(strip_await(expr), func, node, depth, _busy)
+        try:
+            alts = self._exp(strip_await(expr), func, node, depth, _busy)
+        finally:
+            self._pure = False
         return alts[:MAX_ALTS]
 
     def _exp(self, e: ast.AST, func: FuncInfo, node: Node, depth: int, busy: frozenset[int]) -> list[ast.expr]:
@@ -104,7 +110,7 @@ class Prov:
                     return ast.Call(func=ast.Name(id="__phi__", ctx=ast.Load()), args=alts, keywords=[])
                 return n
 
-        return Sub().visit(copy.deepcopy(e))
+        return Sub().visit(clone(e))
 
     def _name(self, e: ast.Name, func: FuncInfo, node: Node, depth: int, busy: frozenset[int]) -> list[ast.expr]:
         rd = self.rd(func)
@@ -122,6 +128,13 @@ class Prov:
                 continue
             a = d.ast
             b2 = busy | {d.id}
+            if getattr(self, "_pure", False):
+                val = getattr(a, "value", None)
+                simple = isinstance(a, (ast.Assign, ast.AnnAssign)) and val is not None and isinstance(getattr(a, "targets", [getattr(a, "target", None)])[0], ast.Name) \
+                    and not any(isinstance(x, (ast.Call, ast.Await, ast.Yield, ast.YieldFrom)) for x in ast.walk(val))
+                if not simple:
+                    out.append(ast.Name(id=e.id, ctx=ast.Load()))
+                    continue
             if isinstance(a, ast.Assign) and len(a.targets) == 1 and isinstance(a.targets[0], ast.Name):
                 out.extend(self._exp(a.value, func, d, depth, b2))
             elif isinstance(a, ast.AnnAssign) and isinstance(a.target, ast.Name) and a.value is not None:
@@ -264,8 +277,8 @@ class Prov:
 
                 class Sub(ast.NodeTransformer):
                     def visit_Name(self, n: ast.Name) -> ast.AST:
-                        return copy.deepcopy(mapping[n.id]) if n.id in mapping else n
+                        return clone(mapping[n.id]) if n.id in mapping else n
 
-                new = Sub().visit(copy.deepcopy(term))
+                new = Sub().visit(clone(term))
                 out.extend(self._lift(new, s.owner, depth - 1, lift))
         return out
